@@ -3651,14 +3651,21 @@ async fn main() -> anyhow::Result<()> {
             // No MANIFEST normally means a directory that was never used. If snapshot or WAL
             // files are present the MANIFEST has been lost: starting empty would silently
             // drop every document those files hold (and the next write would publish a new
-            // MANIFEST over them).
+            // MANIFEST over them). A WAL segment that holds nothing beyond its header is what
+            // a first start-up killed before it published the MANIFEST leaves behind: there is
+            // nothing to lose, and the next start-up must not need manual cleanup.
             let orphaned = std::fs::read_dir(&data_dir_path)
                 .map(|entries| {
                     entries.flatten().any(|entry| {
                         let name = entry.file_name();
                         let name = name.to_string_lossy();
                         (name.starts_with("snapshot_") && name.ends_with(".snap"))
-                            || (name.starts_with("wal_") && name.ends_with(".wal"))
+                            || (name.starts_with("wal_")
+                                && name.ends_with(".wal")
+                                && entry
+                                    .metadata()
+                                    .map(|m| m.len() > kyrodb_engine::persistence::WAL_HEADER_LEN)
+                                    .unwrap_or(true))
                     })
                 })
                 .unwrap_or(false);
